@@ -361,7 +361,14 @@ func drawStruct(t *rapid.T, idx int, exclFragile map[string]bool, forceJson bool
 	s.json = forceJson || rapid.IntRange(0, 3).Draw(t, "json") == 0
 	s.jsonTag = !s.json && rapid.IntRange(0, 5).Draw(t, "jsontag") == 0
 	s.labelled = rapid.IntRange(0, 2).Draw(t, "labelled") == 0
-	if !forceJson && rapid.IntRange(0, 4).Draw(t, "explicitFamily") == 0 {
+	if !forceJson && rapid.IntRange(0, 3).Draw(t, "valuePlusExplicit") == 0 {
+		// @fp.Value together with members of the explicit family (both passes must de-duplicate)
+		s.getter = rapid.Bool().Draw(t, "+@Getter")
+		s.with = rapid.Bool().Draw(t, "+@With")
+		s.builder = rapid.Bool().Draw(t, "+@Builder")
+		s.str = rapid.Bool().Draw(t, "+@String")
+		s.allArgs = rapid.Bool().Draw(t, "+@AllArgs")
+	} else if !forceJson && rapid.IntRange(0, 4).Draw(t, "explicitFamily") == 0 {
 		// the explicit annotation family instead of @fp.Value
 		s.value, s.json, s.jsonTag, s.labelled = false, false, false, false
 		s.getter = rapid.Bool().Draw(t, "@Getter")
